@@ -241,6 +241,39 @@ func TestC15Codecs(t *testing.T) {
 			if !bytes.Equal(g.SigningBytes(), a.SigningBytes()) {
 				t.Fatalf("C15: authorized-server signing bytes differ")
 			}
+			// Locations longer than the single length byte can express: the layout
+			// is not defined for them (decode cannot work), but the POST endpoint
+			// does not limit the length, so two distinct servers must still never
+			// share signing bytes (a GCA signature for one must not fit another).
+			if rapid.IntRange(0, 2).Draw(t, "longLocation") == 0 {
+				l := rapid.SampledFrom([]int{256, 257, 300, 511, 512, 1000}).Draw(t, "longLen")
+				x := a
+				x.Location = string(rapid.SliceOfN(rapid.Byte(), l, l).Draw(t, "longLoc"))
+				y := x
+				switch rapid.IntRange(0, 3).Draw(t, "longVariant") {
+				case 0: // differs beyond byte 255 only
+					pos := rapid.IntRange(255, l-1).Draw(t, "longPos")
+					bs := []byte(x.Location)
+					bs[pos] ^= byte(rapid.IntRange(1, 255).Draw(t, "longXor"))
+					y.Location = string(bs)
+				case 1: // its 255-byte prefix
+					y.Location = x.Location[:255]
+				case 2: // same length byte (length mod 256), same leading bytes
+					y.Location = x.Location[:l-256]
+				default: // one byte shorter
+					y.Location = x.Location[:l-1]
+				}
+				gx, gy := world.ToGlowServer(x), world.ToGlowServer(y)
+				if bytes.Equal(gx.SigningBytes(), gy.SigningBytes()) {
+					t.Fatalf("C15: authorized servers with different locations (%d and %d bytes) share signing bytes", len(x.Location), len(y.Location))
+				}
+				mx := world.ToGlowMigration(ref.Migration{Equipment: a.PublicKey, NewGCA: a.PublicKey, NewShortID: 7, NewServers: []ref.AuthServer{x}})
+				my := world.ToGlowMigration(ref.Migration{Equipment: a.PublicKey, NewGCA: a.PublicKey, NewShortID: 7, NewServers: []ref.AuthServer{y}})
+				if bytes.Equal(mx.SigningBytes(), my.SigningBytes()) {
+					t.Fatalf("C15: migration orders whose servers differ in location (%d and %d bytes) share signing bytes", len(x.Location), len(y.Location))
+				}
+				ev.Label("c15:long-location-injectivity")
+			}
 			ev.NonTrivial("c15|server|" + string(a.Encode()))
 			ev.Sample("c15:authorized-server", map[string]interface{}{"location_len": len(a.Location), "banned": a.Banned, "ports": []uint16{a.HttpPort, a.TcpPort, a.UdpPort}})
 		case "migration":
